@@ -177,9 +177,11 @@ def threeway(repo: Repo, R, rule: str, hf: FuncInfo, nname: Optional[str]):
     from .. import fde
 
     a, b = [x.arg for x in hf.node.args.args[:2]]
-    conv = bool(pat.find(f"{b} = to_prefixed({b})", hf.node))
-    dtexts = {f"({nname}({a}) - {nname}({b})).scaleb(-min({x}.prefix.value, {y}.prefix.value))" for x, y in ((a, b), (b, a))} if nname else set()
-    unscaled = f"{nname}({a}) - {nname}({b})" if nname else None
+    rebound = bool(pat.find(f"{b} = to_prefixed({b})", hf.node))
+    B = b if rebound else f"to_prefixed({b})"  # the converted right operand: re-bound in place, or a local computed from it
+    dtexts = {f"({nname}({a}) - {nname}({B})).scaleb(-min({x}.prefix.value, {y}.prefix.value))" for x, y in ((a, B), (B, a))} if nname else set()
+    unscaled = f"{nname}({a}) - {nname}({B})" if nname else None
+    conv = True  # established by the difference being taken over the converted operand (checked through `seen['diff']`)
     seen = {"diff": None, "tol": None}
 
     def is_diff(e):
